@@ -86,7 +86,7 @@ def render(prog, org, dia, r):
         k = it["k"]
         if k == "def":
             if it.get("al"):
-                body = D.lines["defw"] % (MARK, j) if False else "dc.w\t$%02X%02x" % (MARK, j)
+                body = D.lines["defw"] % j
             else:
                 body = D.lines["defb"] % D.hx(j)
             form = r.randrange(3)
@@ -198,9 +198,7 @@ def decode(prog, org, dia, choice, img):
                     raise Undecodable("item %d: opcode %02x at %d is not %s" % (j, op, a, choice[j - 1]))
                 elif byte(a + 1) == 0:
                     n, v = 4, a + 2 + _s16(word(a + 2))
-                elif byte(a + 1) == 0xFF:
-                    raise Undecodable("item %d: 32-bit branch on a 68000" % j)
-                else:
+                else:       # on a 68000 every other second byte, $FF included, is an 8-bit displacement
                     n, v = 2, a + 2 + _s8(byte(a + 1))
             elif D.cls == "86":
                 if op == so:
